@@ -310,7 +310,17 @@ func checkC19(w *World, r *Report) {
 			return fa.X.Type().(*types.Pointer).Elem().Underlying().(*types.Struct).Field(fa.Field).Name()
 		}
 		cmpField := ""
-		for _, b := range vf.Blocks {
+		// the comparison may sit in a function literal of Validate (a test handed to slices.ContainsFunc)
+		var vblocks []*ssa.BasicBlock
+		var addFn func(fn *ssa.Function)
+		addFn = func(fn *ssa.Function) {
+			vblocks = append(vblocks, fn.Blocks...)
+			for _, a := range fn.AnonFuncs {
+				addFn(a)
+			}
+		}
+		addFn(vf)
+		for _, b := range vblocks {
 			for _, in := range b.Instrs {
 				if bo, ok := in.(*ssa.BinOp); ok && bo.Op == token.EQL {
 					for _, side := range []ssa.Value{bo.X, bo.Y} {
